@@ -1009,7 +1009,13 @@ func main() {
 	out := flag.String("out", "", "")
 	replay := flag.String("replay", "", "")
 	workers := flag.Int("workers", 6, "")
+	probe := flag.String("faultprobe", "", "docs|meta: print what a failed write leaves behind")
+	probeCut := flag.Int("cut", 10, "")
 	flag.Parse()
+	if *probe != "" {
+		faultProbe(*probe, *probeCut)
+		return
+	}
 	if *out == "" {
 		fmt.Fprintln(os.Stderr, "usage: hC01 -seed N -tier quick|thorough -out DIR [-replay file]")
 		os.Exit(2)
